@@ -362,7 +362,6 @@ static struct { unsigned long cases, acqs, frames_cam, frames_sto, frames_client
                 faults_sto, instants_hit[END_N], instants_missed[END_N], client_pat[CL_N], late_join, c08_programs, c08_calls, reconfig_switch,
                 writer_asleep_at_fault, dead_filter_aborts, avg_windows, nondiv8, shape_changes, holds_across_end, real_dev_acqs, zero_frames; } C;
 static vset g_sigs;
-static int g_prev_aborted; // the previous acquisition on this runtime ended by abort or fault
 
 static long cam_frames_of_epoch(int dev, uint64_t epoch, struct rtm_frame** first)
 {
@@ -412,8 +411,16 @@ struct acq_result { uint64_t cam_epoch[2]; uint32_t sto_start[2]; int started; i
 
 // Compare what storage `dev` got during start `start_no` with what camera `dev` delivered in `epoch`.
 // prefix_ok: an aborted/faulted acquisition only has to be a gap-free prefix.
+static int g_prev_aborted; // the previous acquisition on this runtime ended by abort or fault
+static int g_client_active; // a monitoring client polled during the acquisition being judged
+static const char* mk_props(char* buf, size_t n, const char* base, int shape_differs)
+{
+    snprintf(buf, n, "%s%s%s%s", base, g_prev_aborted ? ",C07" : "", g_client_active ? ",C06" : "", shape_differs ? ",C05" : "");
+    return buf;
+}
 static void check_stream(int dev, const struct stream_cfg* s, const struct acq_result* r, int prefix_ok, const char* ctx)
 {
+    char pb[64];
     struct rtm_frame *cf, *sf;
     pthread_mutex_lock(&M->mu);
     long nc = cam_frames_of_epoch(dev, r->cam_epoch[dev], &cf);
@@ -432,7 +439,7 @@ static void check_stream(int dev, const struct stream_cfg* s, const struct acq_r
         long full = nc / s->avg;
         ++C.avg_acqs;
         if (!prefix_ok && (ns < full || ns > full + 1))
-            violation(g_prev_aborted ? "C10,C04,C07" : "C10,C04", "averaging-frame-count", "%s stream %d: %ld camera frames, window %u: storage got %ld frames, expected %ld (+1 trailing at most)",
+            violation(mk_props(pb, sizeof pb, "C10,C04", 0), "averaging-frame-count", "%s stream %d: %ld camera frames, window %u: storage got %ld frames, expected %ld (+1 trailing at most)",
                       ctx, dev, nc, s->avg, ns, full);
         if (g_loud) { fprintf(stderr, "storage ids:"); for (long j = 0; j < ns; ++j) fprintf(stderr, " %llu", (unsigned long long)sf[j].frame_id); fprintf(stderr, "\n"); }
         long ncheck = ns < full ? ns : full;
@@ -461,7 +468,7 @@ static void check_stream(int dev, const struct stream_cfg* s, const struct acq_r
     } else {
         // ---- C04 / C07 prefix ------------------------------------------------------------------------
         if (!prefix_ok && ns != nc)
-            violation(g_prev_aborted ? "C04,C07" : "C04", ns < nc ? "frames-lost" : "frames-extra", "%s stream %d: camera delivered %ld frames, storage received %ld", ctx, dev, nc, ns);
+            violation(mk_props(pb, sizeof pb, "C04", 0), ns < nc ? "frames-lost" : "frames-extra", "%s stream %d: camera delivered %ld frames, storage received %ld", ctx, dev, nc, ns);
         if (prefix_ok && ns > nc)
             violation("C07,C09", "frames-extra", "%s stream %d: camera delivered %ld frames, storage received %ld", ctx, dev, nc, ns);
         long n = ns < nc ? ns : nc;
@@ -470,7 +477,8 @@ static void check_stream(int dev, const struct stream_cfg* s, const struct acq_r
             if (b->frame_id != (uint64_t)i || b->hw_id != a->hw_id || b->w != a->w || b->h != a->h || b->type != a->type || b->pixhash != a->pixhash) {
                 // classify: stale frame of an earlier acquisition?
                 int stale = (b->ts_hw >> 32) != r->cam_epoch[dev];
-                violation(prefix_ok ? "C07,C09" : (g_prev_aborted ? "C04,C07,C09" : "C04,C09"), stale ? "stale-frame-in-storage" : "frame-mismatch",
+                int shp = b->w != a->w || b->h != a->h || b->type != a->type;
+                violation(prefix_ok ? (shp ? "C07,C09,C05" : "C07,C09") : mk_props(pb, sizeof pb, "C04,C09", shp), stale ? "stale-frame-in-storage" : "frame-mismatch",
                           "%s stream %d: storage frame %ld has id %llu hw %llu %ux%u (epoch %llu), camera frame %ld is hw %llu %ux%u (epoch %llu)%s", ctx, dev, i,
                           (unsigned long long)b->frame_id, (unsigned long long)b->hw_id, b->w, b->h, (unsigned long long)(b->ts_hw >> 32), i,
                           (unsigned long long)a->hw_id, a->w, a->h, (unsigned long long)r->cam_epoch[dev], b->pixhash != a->pixhash ? " pixels differ" : "");
@@ -684,6 +692,7 @@ static void run_acquisition(const struct acq_cfg* a, vrng* g, int acq_index, str
                       g_ncl - before, by_abort ? "abort" : "stop");
     }
     if (g_cl_errors) { violation("C06", "client-map-error", "%s: acquire_map_read/unmap_read returned an error %lu time(s)", ctx, g_cl_errors); g_cl_errors = 0; }
+    g_client_active = a->client != CL_NONE;
     for (int i = 0; i < 2; ++i) {
         if (!a->s[i].on || a->s[i].real_devices) continue;
         // devices stopped: last camera event of that instance must be a stop
